@@ -209,7 +209,11 @@ func (r *Reader) Read(p []byte) (int, error) {
 	}
 	if r.concReader.ready() {
 		n, err := r.concReader.Read(p)
-		r.err = err
+		if err != io.EOF {
+			// As with the non-concurrent code path below, io.EOF is not a
+			// sticky error: a subsequent Seek can make more data readable.
+			r.err = err
+		}
 		return n, err
 	}
 
